@@ -18,6 +18,7 @@ def gen_cases(ctx):
     for c in gen_cases_raw(ctx):
         c.setdefault("route", ctx.rng.choice(["xyzquat", "se3"]))
         c.setdefault("pre", ctx.rng.choice(PRE_READS))
+        c.setdefault("flavour", ctx.rng.choice(["plain", "plain", "strided", "readonly"]))
         yield c
 
 
@@ -32,6 +33,11 @@ def gen_cases_raw(ctx):
     yield {"kind": "grid", "s1": [1.0, 2.0], "s2": [10.0, 11.0, 12.0], "md": 0.5, "off": 0.0, "corpus": "empty"}
     yield {"kind": "grid", "s1": [10.0, 11.0, 12.0], "s2": [1.0, 2.0], "md": 0.5, "off": 9.0, "corpus": "off-first-longer"}
     yield {"kind": "grid", "s1": [1.0, 2.0], "s2": [10.0, 11.0, 12.0], "md": 0.5, "off": -9.0, "corpus": "off-second-longer"}
+    # structured sizes: 1, 2, 2^k-1, 2^k, 2^k+1 on both sides (equal stamps shifted by a quarter step)
+    for n1 in (1, 2, 3, 4, 5, 7, 8, 9, 15, 16, 17, 31, 32, 33, 63, 64, 65):
+        n2 = r.choice([n1, n1 + 1, max(1, n1 - 1), 2 * n1])
+        yield {"kind": "grid", "s1": [k / 2 for k in range(n1)], "s2": [k / 2 + 0.125 for k in range(n2)],
+               "md": r.choice([0.125, 0.25, 0.0]), "off": r.choice([0.0, -0.125, 0.5])}
     for _ in range(n_grid):
         n1, n2 = r.randint(1, 8), r.randint(1, 8)
         q = r.choice([1, 2, 4, 8])
@@ -113,9 +119,18 @@ def run_impl(case):
 def run_impl_(case):
     from evo.core import sync
     s1, s2 = np.array(case["s1"], dtype=float), np.array(case["s2"], dtype=float)
+    flavour = case.get("flavour", "plain")
+    if flavour == "strided":       # non-contiguous views of larger arrays
+        s1 = np.column_stack([s1, s1 + 1e6])[:, 0]
+        s2 = np.repeat(s2, 2)[::2]
+    elif flavour == "readonly":
+        s1.setflags(write=False)
+        s2.setflags(write=False)
     b1, b2 = s1.tobytes(), s2.tobytes()
     i1, i2 = sync.matching_time_indices(s1, s2, case["md"], case["off"])
+    j1, j2 = sync.matching_time_indices(s1, s2, case["md"], case["off"])       # a second call sees the same inputs
     out = {"match": list(zip(map(int, i1), map(int, i2))),
+           "match_repeatable": (list(i1), list(i2)) == (list(j1), list(j2)),
            "match_inputs_unchanged": s1.tobytes() == b1 and s2.tobytes() == b2}
     route, pre = case.get("route", "xyzquat"), case.get("pre", [])
     t1, t2 = make_traj(case["s1"], 1, route, pre), make_traj(case["s2"], 2, route, pre)
@@ -149,6 +164,14 @@ def run_impl_(case):
                                             or any(a is b for a in o2.poses_se3 for b in t2.poses_se3))}
     except sync.SyncException:
         out["assoc"] = "E_SYNC"
+    # object reuse: associating the same input objects again must give the same result
+    try:
+        p1, p2 = sync.associate_trajectories(t1, t2, case["md"], case["off"])
+        again = [int(round(m[0, 3])) for m in p1.poses_se3], [int(round(m[0, 3])) for m in p2.poses_se3]
+        out["assoc_repeatable"] = out["assoc"] != "E_SYNC" and again == (out["assoc"]["ids1"], out["assoc"]["ids2"]) \
+            and snap(p1) == snap(o1) and snap(p2) == snap(o2)
+    except sync.SyncException:
+        out["assoc_repeatable"] = out["assoc"] == "E_SYNC"
     out["assoc_inputs_unchanged"] = (snap(t1), snap(t2)) == before
     return out
 
@@ -201,6 +224,7 @@ def judge(ctx, case, impl, outs):
     # ---- coverage bookkeeping
     ctx.count("dist", case["kind"] + ":" + case.get("shape", ""))
     ctx.count("dist", "route:" + case.get("route", "xyzquat") + "/pre:" + "+".join(case.get("pre", [])))
+    ctx.count("dist", "array-flavour:" + case.get("flavour", "plain"))
     ctx.count("dist", "len1%s2" % ("<" if len(case["s1"]) < len(case["s2"]) else "=" if len(case["s1"]) == len(case["s2"]) else ">"))
     ctx.count("dist", "offset" + ("0" if case["off"] == 0 else "+" if case["off"] > 0 else "-"))
     if model_assoc == "E_SYNC":
@@ -279,6 +303,8 @@ def oracle(ctx, case, impl, sl):
     s1, s2 = [int(frac(x) * sc) for x in case["s1"]], [int(frac(x) * sc) for x in case["s2"]]
     if not impl["match_inputs_unchanged"] or not impl["assoc_inputs_unchanged"]:
         ctx.fail(case, "inputs-unmodified", "an input array/trajectory was modified")
+    if not impl.get("match_repeatable", True) or not impl.get("assoc_repeatable", True):
+        ctx.fail(case, "same-inputs-same-result", "a second call on the same (unmodified) input objects gave a different result")
     short, long_, offl, snd_longer = driving(case)
     D = dists(case)
     a = impl["assoc"]
